@@ -172,6 +172,10 @@ func frun(args []string) int {
 		for i := range steps {
 			_ = enc.Encode(&steps[i])
 		}
+		fin.Sched = job.Sched
+		if fin.Sched == nil {
+			fin.Sched = []json.RawMessage{}
+		}
 		_ = enc.Encode(fin)
 		nsteps += len(steps)
 		if fin.Followed {
